@@ -52,6 +52,13 @@ type ElemPtr struct {
 	Elem     types.Type
 }
 
+// MapIterV is the iterator of a range over a Go map; its visited set lives in State.ghostV[Key].
+type MapIterV struct {
+	Key  string
+	Addr *Term
+	MT   *types.Map
+}
+
 // ClosureV is a function value known at verification time.
 type ClosureV struct {
 	Fn   *ssa.Function
